@@ -137,7 +137,9 @@ def cell_card(c, deck):
             if c['ftrspell'] == 'star':
                 fill = '*' + fill
         parts.append(fill)
-    if c['hastrcl']:
+    if c['hastrcl'] and c.get('trclnum'):
+        parts.append('trcl=%d' % c['trclnum'])
+    elif c['hastrcl']:
         kw = 'trcl=' + _tr_inline(c['trcl'], c['trclspell'], deck)
         if c['trclspell'] == 'star':
             kw = '*' + kw
@@ -190,8 +192,19 @@ def concretise(deck, title='generated by vt4'):
         lines.append(wrap_card(card))
     lines.append('')
     for t in deck.get('trs', []):
-        if t.get('spell') == 'star':
+        sp = t.get('spell', '12')
+        if sp == 'star':
             lines.append(wrap_card('*tr%d %s' % (t['n'], ' '.join(tr_params_star(t)))))
+        elif sp == '13':
+            lines.append(wrap_card('tr%d %s 1' % (t['n'], ' '.join(tr_params(t)))))
+        elif sp.startswith('rows') or sp.startswith('cols'):
+            keep = {int(ch) - 1 for ch in sp[4:]}
+            ent = []
+            for r in range(3):
+                for c in range(3):
+                    given = (r in keep) if sp.startswith('rows') else (c in keep)
+                    ent.append(num(t['m'][3 * r + c]) if given else 'j')
+            lines.append(wrap_card('tr%d %s %s' % (t['n'], ' '.join(num(v) for v in t['o']), ' '.join(ent))))
         else:
             lines.append(wrap_card('tr%d %s' % (t['n'], ' '.join(tr_params(t, t.get('spell', '12'))))))
     for n, (o, m) in deck['_trtable']:
